@@ -10,6 +10,8 @@ const NAMES: &[&str] = &[
     // names that look like relative paths (files of these names exist in one process environment
     // of the selftest: nothing may depend on the file system)
     "pasta/spaghetti", "salt/pepper", "sauces/tomato sauce",
+    // ... and names written as relative paths, which is how recipes reference other recipes
+    "./sauces/tomato", "../base/stock", "./dough", "./a/b/c", ".\\win\\dir\\x",
 ];
 const COOKWARE: &[&str] = &["pan", "oven", "big bowl", "whisk", "pot", "baking tray"];
 const UNITS: &[&str] = &[
